@@ -75,8 +75,8 @@ def run_impl(c):
             fail = {'kind': 'error-without-position', 'detail': str(e)[:200]}
         elif not (0 <= e.pos <= len(s)):
             fail = {'kind': 'error-position-out-of-range', 'detail': 'pos=%r len=%d' % (e.pos, len(s))}
-        elif c.get('offs') and (e.lineno, e.colno) != _line_col(s, e.pos, c['offs']):
-            fail = {'kind': 'error-line-col-mismatch', 'detail': 'walker offsets %r: error says %r, pos %d is (line, column) %r' % (c['offs'], (e.lineno, e.colno), e.pos, _line_col(s, e.pos, c['offs']))}
+        elif (e.lineno, e.colno) != _line_col(s, e.pos, c.get('offs') or [1, 0, 0]):
+            fail = {'kind': 'error-line-col-mismatch', 'detail': 'walker offsets %r: error says %r, pos %d is (line, column) %r' % (c.get('offs') or [1, 0, 0], (e.lineno, e.colno), e.pos, _line_col(s, e.pos, c['offs']))}
         elif (e.lineno, e.colno) != tuple(w.pos_to_lineno_colno(e.pos)):
             fail = {'kind': 'error-line-col-mismatch', 'detail': 'error says %r, pos %d maps to %r' % ((e.lineno, e.colno), e.pos, w.pos_to_lineno_colno(e.pos))}
     elif kind == 'ok':
